@@ -308,6 +308,17 @@ func c20ProducerStacks(dump string) []string {
 	return out
 }
 
+// c20BlobAsleep reports whether the dump has a goroutine of the blob service in an uninterruptible
+// time.Sleep.
+func c20BlobAsleep(dump string) bool {
+	for _, g := range strings.Split(dump, "\n\n") {
+		if strings.Contains(g, "[sleep") && strings.Contains(g, "celestia-node/blob.") {
+			return true
+		}
+	}
+	return false
+}
+
 func c20Dump() string {
 	buf := make([]byte, 4<<20)
 	return string(buf[:runtime.Stack(buf, true)])
@@ -953,6 +964,17 @@ func TestC20(t *testing.T) {
 	var pending []*c20Run
 	// await waits for the run to wind up; a run that does not is parked for the stable-state check
 	// (parking is scheduling only, never a verdict).
+	// how long a run is waited for before it is parked: generous at first, short once several runs had to
+	// be parked (a tree on which many streams do not end would otherwise cost 25 s per run)
+	patience := func() time.Duration {
+		pendMu.Lock()
+		n := len(pending)
+		pendMu.Unlock()
+		if n >= 4 {
+			return 2 * time.Second
+		}
+		return 25 * time.Second
+	}
 	await := func(r *c20Run) {
 		select {
 		case <-r.allDone:
@@ -965,7 +987,7 @@ func TestC20(t *testing.T) {
 				return
 			case <-time.After(30 * time.Millisecond):
 			}
-		case <-time.After(25 * time.Second):
+		case <-time.After(patience()):
 		}
 		pendMu.Lock()
 		pending = append(pending, r)
@@ -1080,7 +1102,18 @@ func TestC20(t *testing.T) {
 						state = "retrieval blocked"
 					}
 					waiting := cause[0] == 'n' && s.fedAll && s.R == r.p.N
+					idle := cause[0] == 'n' && !s.inGetter
 					r.mu.Unlock()
+					asleep := c20BlobAsleep(dump)
+					if idle && !waiting {
+						// no cause was injected and the producer is not inside a retrieval: it pauses between
+						// attempts (a timer in the service, e.g. a retry back-off). Slow is not wrong: not judged
+						run.Count("parked_between_attempts(not judged)", 1)
+						continue
+					}
+					if asleep && cause[0] != 'n' {
+						state = "the producer sleeps without watching the cause (goroutine in time.Sleep inside the blob service)"
+					}
 					if waiting {
 						// everything delivered, no cause injected yet: the final stop of this run waits
 						// for the hung sibling subscription; an open stream is correct here
